@@ -85,8 +85,15 @@ class TextSession(impl.Session):
     NEXT = None
     TABLE = None     # (table name, [column names]) declared by the application for COM_FIELD_LIST
 
+    REBIND = False   # an application that installs its own variables object when the session starts (per-tenant settings)
+
     async def init(self, connection):
         await super().init(connection)
+        if type(self).REBIND:
+            from mysql_mimic.variables import GlobalVariables, SessionVariables
+            fresh = SessionVariables(GlobalVariables())
+            fresh.values.update(self.variables.values)       # what was negotiated so far is carried over
+            self.variables = fresh
 
     async def query(self, expression, sql, attrs):
         self.LOG.append(("query", sql, dict(attrs), self.database))
@@ -235,6 +242,7 @@ def history(ctx, rng, lib_sets):
         log = []
         TextSession.LOG = log
         TextSession.NEXT = None
+        TextSession.REBIND = (rng.random() < 0.3)
         made = []
 
         def factory():
